@@ -662,7 +662,7 @@ type SpecFile struct {
 }
 
 var directiveKw = map[string]bool{
-	"func": true, "extern": true, "interface": true, "requires": true, "ensures": true, "assigns": true, "reads": true,
+	"func": true, "extern": true, "interface": true, "functype": true, "requires": true, "ensures": true, "assigns": true, "reads": true,
 	"loop": true, "pure": true, "trusted": true, "spec": true, "pred": true, "uninterp": true, "ghost": true,
 	"lemma": true, "axiom": true, "props": true, "nopanic": true, "exclude": true, "frameonly": true,
 }
@@ -733,6 +733,18 @@ func parseSpecFile(path string, pkgName string) (*SpecFile, error) {
 					p.p++
 				}
 			}
+		case "functype":
+			// functype Name(params) results : contract every function value of the named func type satisfies
+			fc := &FuncContract{Pkg: pkgName, Loops: map[int]*LoopSpec{}, Line: d.line, File: path, Sig: d.text, Props: append([]string{}, curProps...)}
+			nm := p.next()
+			fc.Key = "functype:" + nm.v
+			names, err := p.parseSigParams()
+			if err != nil {
+				return nil, err
+			}
+			fc.ParamNames = names
+			sf.Funcs = append(sf.Funcs, fc)
+			cur = fc
 		case "func", "extern", "interface":
 			fc := &FuncContract{Pkg: pkgName, Loops: map[int]*LoopSpec{}, Line: d.line, File: path, Sig: d.text, Props: append([]string{}, curProps...)}
 			if kw == "extern" {
